@@ -636,7 +636,7 @@ def permutation_inputs(rng, spec, inp, budget):
 # generators
 # ------------------------------------------------------------------------------------------------
 def gen_cfg(rng, delim):
-    return {'delimiter': delim, 'ordered': rng.random() < 0.4, 'length_error': rng.random() < 0.2,
+    return {'delimiter': delim, 'ordered': rng.random() < 0.4, 'length_error': rng.random() < 0.15,
             'missing_error': rng.random() < 0.6, 'partial_credit': rng.random() < 0.7,
             'wrong_msg': rng.choice(['', '', 'WRONG'])}
 
@@ -691,17 +691,17 @@ def vary_item(rng, it):
     return '\t' + it + '  '
 
 
-def gen_inputs_for(rng, ne, delim, n_inputs, missing_bias=0.12, item_gen=None):
+def gen_inputs_for(rng, ne, delim, n_inputs, missing_bias=0.08, item_gen=None):
     item_gen = item_gen or (lambda: vary_item(rng, rng.choice(ITEM_NAMES[:6])))
     out = []
     for _ in range(n_inputs):
         r = rng.random()
-        ns = ne if r < 0.5 else rng.randint(1, 7)
+        ns = ne if r < 0.55 else rng.randint(1, 7)
         base = ITEM_NAMES[:]
         rng.shuffle(base)
         items = []
         for k in range(ns):
-            if rng.random() < 0.55 and k < len(base):
+            if rng.random() < 0.7 and k < len(base):
                 items.append(vary_item(rng, ITEM_NAMES[k % len(ITEM_NAMES)]) if rng.random() < 0.6 else vary_item(rng, base[k]))
             else:
                 items.append(item_gen())
@@ -1005,12 +1005,12 @@ def run(ctx):
                 'string-form | inferred from expect], credit table, submission of 1-7 items); non-trivial = distinct '
                 '(configuration, answers, table, submission) on which a grade was returned')
     stats = new_stats()
-    plan = [('flat', 'exact', 170), ('flat', 'rounded', 45), ('nested', 'exact', 60), ('nested', 'rounded', 20)]
-    perm_budget = 6
+    plan = [('flat', 'exact', 110), ('flat', 'rounded', 30), ('nested', 'exact', 36), ('nested', 'rounded', 12)]
+    perm_budget = 5
     if ctx['escalate'] and not thorough:
-        plan = [(k, s, int(n * 1.5)) for k, s, n in plan]
+        plan = [(k, s, int(n * 1.4)) for k, s, n in plan]
     if thorough:
-        plan = [('flat', 'exact', 5000), ('flat', 'rounded', 1200), ('nested', 'exact', 1500), ('nested', 'rounded', 400)]
+        plan = [('flat', 'exact', 1800), ('flat', 'rounded', 450), ('nested', 'exact', 550), ('nested', 'rounded', 150)]
         perm_budget = 23
     terms = []
     specs = [(s, True) for s in corpus()]
@@ -1050,7 +1050,7 @@ def run(ctx):
 
 def evaluate(case_terms):
     """agree / boundary for every case, decided inside Coq; returns (n, failing indices, #boundary-guarded, errors)"""
-    shard = max(40, -(-len(case_terms) // 16))
+    shard = min(400, max(40, -(-len(case_terms) // 16)))
     files = []
     for k in range(0, len(case_terms), shard):
         chunk = case_terms[k:k + shard]
